@@ -1011,6 +1011,7 @@ package spec
 //@ define scopeOf(id string, basePath string) string = id != "" ? normURI((hasSuffix(id, "/") ? id + "placeholder.json" : id), basePath) : basePath
 //@ func expandSchema
 //@   strings  uninterpreted
+//@   call denormalizeRef 0 requires [C02,C03,C09] rewrites-a-reference-in-absolute-form @@ arg_ref != nil && arg_ref.referenceURL != nil && arg_ref.referenceURL.Scheme != ""
 //@   keeps    [C02] piLeft, piLeftLocal, piRes, piHome, prLeft, prLeftLocal, prRes, prHome
 //@   property C04, C08, C03, C18
 //@   defines  result1 == nil ==> esDone[skey(*result0)]
@@ -1132,6 +1133,7 @@ package spec
 
 //@ func expandSchemaRef
 //@   strings  uninterpreted
+//@   call denormalizeRef 0 requires [C02,C03] rewrites-a-reference-in-absolute-form @@ arg_ref != nil && arg_ref.referenceURL != nil && arg_ref.referenceURL.Scheme != ""
 //@   ret 2 ensures [C08] unresolved-ref-left-verbatim @@ *result0 == target
 //@   call expandSchema 0 requires [C08] descends-only-after-a-successful-resolve @@ failures == old(failures)
 //@   call expandSchema 0 requires [C02] target-in-its-document-scope @@ hopScopeRaw(arg_resolver, arg_basePath, resolver, basePath, refStringV(target.Ref), refLocalV(target.Ref))
@@ -1186,6 +1188,7 @@ package spec
 
 //@ func expandParameterOrResponse
 //@   strings  uninterpreted
+//@   call denormalizeRef 0 requires [C02,C03] rewrites-a-reference-in-absolute-form @@ arg_ref != nil && arg_ref.referenceURL != nil && arg_ref.referenceURL.Scheme != ""
 //@   keeps    [C02] piLeft, piLeftLocal, piRes, piHome
 //@   call expandSchema 0 requires [C02] schema-in-holder-scope @@ payload(input) != nil ==> inScope(arg_resolver, arg_basePath, prRes, prHome, prLeft, prLeftLocal)
 //@   property C04, C08, C03, C18
